@@ -138,6 +138,13 @@ def run(res):
     specs = [dict(seed=res.seed, idx=i, max_patches=(18 if quick else 34)) for i in range(10 if quick else 300)]
     for r in fw.run_parallel(scene_case, specs):
         res.absorb(r)
+    # the same law in the Kang engine (RadiosityKang / PatchesKang): scene cases of C19 -- all orders and
+    # the receiver response against the model, plus their independent oracles
+    import props.C19 as C19
+    kspecs = [dict(seed=res.seed + 5, idx=i, quick=True, force=dict(att_pos=True, int_alpha=(i % 2 == 0)))
+              for i in range(16 if quick else 160)]
+    for r in fw.run_parallel(C19.scene_case, kspecs):
+        res.absorb(r)
     res.rule = ("shoebox scenes, 1-3 bands with m in [0.005,0.3] Np/m, order 1-2; the attenuated run is compared "
                 "with the model and, leg by leg, with the m = 0 run and with a run where attenuation was never set; "
                 "every case is non-trivial (m > 0), distinct by input hash")
@@ -148,4 +155,7 @@ def run(res):
 def replay(res, payload):
     for f in payload.get("failures", []) + payload.get("correspondence", []):
         case = f.get("case", {})
+        import props.C19 as C19
+        if C19.replay_case(res, case):
+            continue
         res.absorb(scene_case(dict(seed=case["seed"], idx=case["idx"], max_patches=34)))
